@@ -192,6 +192,42 @@ Proof.
              (fheads_nonempty (s_univ (run ops)) l UO I Hne) Hs T Ht).
 Qed.
 
+(* ---- ... and the reloaded log is a replica: the history goes on with it.
+   Whatever a complete reload returns (any of the four loaders, any fetch schedule: [same_log] by the
+   theorem above) is the replica the step [OOpen] makes from the loaded entries, in the order in which
+   the loader hands them to NewLog, and the loaded heads; that step is admissible ([owf],
+   Proofs/POpen.v), so every theorem about histories with re-opened logs (C16_reopened_*,
+   C04_append_on_reopened_log, C05/C06 *_reopened) applies to what is appended to and merged with the
+   reloaded log afterwards.  Stated for the manifest loader and, generically, for any loaded log that
+   is the same log. *)
+From IpfsLog Require Import Proofs.PSys Proofs.POpen Proofs.ReloadBridge.
+
+Theorem C09_reloaded_log_is_a_replica (ops : list op) (r : nat) (l : log) (l' : loaded) key sf deny :
+  wf ops -> nth_error (s_logs (run ops)) r = Some l ->
+  same_log (fentries_of l) (fheads_of l) (l_id l) l' ->
+  let reopen := OOpen r (map fe_hash (lg_entries l')) (map fe_hash (lg_heads l')) (l_id l) key sf deny in
+  owf (ops ++ [reopen]) /\
+  exists lr, nth_error (s_logs (run (ops ++ [reopen]))) (length (s_logs (run ops))) = Some lr /\
+    map fentry_of (ents lr) = lg_entries l' /\ l_id lr = lg_id l' /\
+    (forall e, In e (fheads_of lr) <-> In e (lg_heads l')).
+Proof.
+  intros W L S. exact (reloaded_log_is_a_replica ops r l l' key sf deny (pwf_owf _ (wf_pwf _ W)) L S).
+Qed.
+
+Theorem C09_manifest_reload_continues_the_history (ops : list op) (r : nat) (l : log) (cfg : config) key sf deny :
+  wf ops -> nth_error (s_logs (run ops)) r = Some l ->
+  store_has cfg l -> refs_in_log l ->
+  (forall h, cf_excl cfg h = false) -> cf_length cfg < 0 ->
+  forall mheads s, (forall h, In h mheads <-> In h (map fe_hash (fheads_of l))) ->
+    reachable_state cfg mheads s -> terminal s -> st_timedout s = false ->
+    let l' := load_multihash (l_id l) mheads (-1) (st_results s) in
+    owf (ops ++ [OOpen r (map fe_hash (lg_entries l')) (map fe_hash (lg_heads l')) (l_id l) key sf deny]).
+Proof.
+  intros W L Hst Hrefs Hex Hlen mheads s Hm Hs T Ht l'.
+  destruct (C09_reload_reachable_state ops r l cfg W L Hst Hrefs Hex Hlen) as [M _].
+  exact (proj1 (C09_reloaded_log_is_a_replica ops r l l' key sf deny W L (M mheads s Hm Hs T Ht))).
+Qed.
+
 Print Assumptions C09_fetch_closure.
 Print Assumptions C09_reload_manifest.
 Print Assumptions C09_reload_json.
@@ -201,3 +237,5 @@ Print Assumptions C09_values.
 Print Assumptions C09_example_wf.
 Print Assumptions C09_example_reload.
 Print Assumptions C09_reload_reachable_state.
+Print Assumptions C09_reloaded_log_is_a_replica.
+Print Assumptions C09_manifest_reload_continues_the_history.
